@@ -347,6 +347,12 @@ def run(ctx):
                 continue
             for a in C.atoms_of(te):
                 for nm in ast.walk(a):
+                    if isinstance(nm, ast.Name) and row and nm.id in row[0]:
+                        # a guard on a loop variable of the table: what that column holds in this row
+                        for y in walk_terms(flow.term(row[0][nm.id], F)):
+                            if y[0] == "param" and y[1] == init.qual:
+                                used.add(y[2])
+                        continue
                     if isinstance(nm, ast.Name) and F is init and nm.id in params:
                         used.add(nm.id)
                     if (isinstance(nm, ast.Attribute) and isinstance(nm.value, ast.Name) and nm.value.id == F.self_name) or (isinstance(nm, ast.Name) and F is not init):
